@@ -148,8 +148,17 @@ create_thread_dir(int tid)
 {
 	/* The procdir must have been created earlier */
 	mkdir_thread(rthread.thdir, rproc.procdir, tid);
-	if (rproc.move_to_final)
+	if (rproc.move_to_final) {
 		mkdir_thread(rthread.thdir_final, rproc.procdir_final, tid);
+
+		/* The metadata of an earlier run must not mark the stream as
+		 * finished while this run is still being relocated */
+		char path[PATH_MAX];
+		if (snprintf(path, PATH_MAX, "%s/stream.json", rthread.thdir_final) >= PATH_MAX)
+			die("path too long: %s/stream.json", rthread.thdir_final);
+		if (unlink(path) != 0 && errno != ENOENT)
+			die("cannot remove %s:", path);
+	}
 }
 
 static void
